@@ -93,6 +93,7 @@ def via? : Sexp → Option (Lid × Bool)
   | .atom "d" => some (.d, false)
   | .atom "e" => some (.d, true)
   | .list [.atom "m", n] => n.str?.map fun m => (.m m, false)
+  | .list [.atom "f", n] => n.str?.map fun m => (.m m, true)    -- a module's loader in the flat topology (top-level)
   | _ => none
 
 def segLt : Path → Path → Bool
@@ -102,7 +103,7 @@ def segLt : Path → Path → Bool
   | a :: as, b :: bs => if a < b then true else if b < a then false else segLt as bs
 
 def wellFormed (mods : List String) (files : List (Path × Body)) (via : Lid) (flat : Bool) : Bool :=
-  mods.all (fun m => modName m && m ≠ "environment") && distinct mods &&
+  mods.all modName && distinct mods &&
   (match via with
     | .m mod => mods.contains mod
     | .d => flat || !mods.isEmpty
